@@ -146,6 +146,7 @@ def run_calls(build, calls, prelude=None, timeout=600, mem_mb=4096, env=None, pr
             obs[nxt] = "CRASH:%d" % ch.signal
         else:
             obs[nxt] = "CRASH:exit%s:%s" % (ch.rc, ch.err[-300:])
+        core.CRASH_LOGS.append({"module": modname, "call": calls[nxt][:2], "obs": obs[nxt], "stderr": ch.err[-3000:]})
         crashes += 1
         if crashes > 200:
             core.die("too many crashes in run_calls")
